@@ -55,6 +55,7 @@ def record_and_validate(ctx, n):
             ctx.disagree("panic/Allowed", r.get("what", "panic")[:2000], {"scenario": r.get("extra"), "count": 1})
 
     mode = "noesc" if ctx.pid == "C08" else "verdict"
+    unreproduced = []
 
     def on_reject(rec, lineno):
         if mode == "noesc":
@@ -64,10 +65,19 @@ def record_and_validate(ctx, n):
             # the spec derives the opposite verdict
             probe = {"ver": rec["ver"], "st": rec["st"], "ev": rec["ev"], "want": (not rec["got"]), "noesc": True, "fam": "trace", "variant": rec["variant"]}
             cmd = "c07"
-        out = [r for r in ctx.harness(cmd, [probe]) if "i" in r]   # fresh process
-        if not out or out[0].get("ok"):
-            raise MachineryError("recorded verdict of trace line %d did not reproduce in a fresh process" % lineno)
-        r0 = out[0]
+        r0 = None
+        for _ in range(6):   # a defect may be nondeterministic (map iteration order): several fresh processes
+            out = [r for r in ctx.harness(cmd, [probe]) if "i" in r]
+            if out and not out[0].get("ok"):
+                r0 = out[0]
+                break
+        if r0 is None:
+            unreproduced.append(lineno)
+            return
         ctx.disagree(r0.get("key", "trace"), r0.get("what", ""), {"harness": cmd, "record": probe, "result": r0, "count": 1})
 
     ctx.validate_trace("Auth_trace", "Auth_trace.cfg", trace, on_reject, env={"TRACE_MODE": mode})
+    if unreproduced:
+        if not ctx.violations:
+            raise MachineryError("recorded verdicts of trace lines %s did not reproduce in fresh processes" % unreproduced[:10])
+        ctx.notes["unreproduced_trace_lines"] = len(unreproduced)
